@@ -586,6 +586,37 @@ theorem run_error_exact' (fuel : Nat) (s s' : St) (h : (run fuel).run s = (.erro
   rw [this]
   exact ⟨rfl, rfl, rfl⟩
 
+/-- **run_error_exact_of_invariant** — the interface to a typing of states (C04's balance
+discipline): ANY predicate `P` on states that holds at entry, is preserved by every instruction
+step (whatever the outcome of the step), and implies that the three stacks of entry are still
+in place, makes the error exit of `Run` exact. Nothing else about `P` is needed: the re-entrant
+instructions are steps like the others. -/
+theorem run_error_exact_of_invariant (P : St → Prop) (s : St)
+    (hstep : ∀ f i s₀, P s₀ → P ((exec f i).run s₀).2) (hext : ∀ s₁, P s₁ → Extends3 s s₁)
+    (fuel : Nat) (s' : St) (hp : P s) (h : (run fuel).run s = (.error .err, s')) :
+    s'.data = s.data ∧ s'.linear = s.linear ∧ s'.addr = s.addr ∧ s'.suspended = s.suspended := by
+  cases fuel with
+  | zero => rw [run] at h; cases h
+  | succ fuel =>
+    rw [run_succ_eq] at h
+    simp only [run_bind, run_capture] at h
+    rcases hl : (runLoop fuel (captureOf s)).run s with ⟨r, s2⟩
+    rw [hl] at h
+    cases r with
+    | ok u => exact absurd h (runTail_not_err s2 s')
+    | error flt =>
+      dsimp only at h
+      injection h with h1 h2
+      subst h2
+      injection h1 with h1
+      subst h1
+      obtain ⟨s1, hp1, _, rfl⟩ := runLoop_err_inv (fun x => P x ∧ s.suspended <:+ x.suspended)
+        (fun f i s0 hp => ⟨hstep f i s0 hp.1, ((allKeeps s.suspended f).exec i s0 hp.2).1⟩)
+        fuel _ s _ ⟨hp, List.suffix_refl _⟩ hl
+      have hx := hext s1 hp1.1
+      rw [restore_exact_vm s s1 ⟨hx.data, hx.linear, hx.addr, hp1.2⟩]
+      exact ⟨rfl, rfl, rfl, rfl⟩
+
 theorem finishRun_state (r : Except Fault Val × St) : (finishRun r).2.1 = r.2 := by
   unfold finishRun
   rcases r with ⟨(_ | _ | _) | _, s⟩ <;> rfl
